@@ -84,13 +84,13 @@ Section Top.
       destruct E as [-> E]. rewrite (old_cell _ _ _ _ _ G Hold) in E.
       assert (HL : forall y, In y (links (CAttr a)) -> y < n0) by (intros y; apply (proj2 (Hcl0 _ _ E))).
       unfold attr_owned. rewrite E. intros v Hv.
-      destruct (a_val a) as [t tok|t r|g|gs] eqn:Ev; simpl in Hv; try contradiction.
+      destruct (a_val a) as [t tok|t r|g|gs|tt0] eqn:Ev; simpl in Hv; try contradiction.
       - rewrite app_nil_r in Hv. bind_as H s1 g' E1.
         assert (Hg : g < n0). { apply HL. simpl. rewrite Ev. simpl. auto. }
         eapply in_dom_le; [eapply mono_alloc; exact H|]. eapply HD; eassumption.
       - bind_as H s1 gs' E1.
         assert (Hgs : Forall (fun g => g < n0) gs).
-        { apply Forall_forall. intros g Hg. apply HL. simpl. rewrite Ev. simpl. exact Hg. }
+        { apply Forall_forall. intros g Hg. apply HL. simpl. rewrite Ev. simpl. rewrite app_nil_r. exact Hg. }
         destruct (mapM_dom rec (owned (cells h0) k) (fun g => g < n0) (proj1 HR)
                     (fun x s s' b Hx Gs Hs => conj (proj1 (proj2 HR x s s' b Hx Gs Hs)) (HD x s s' b Hx Gs Hs))
                     _ _ _ _ Hgs G E1) as [_ D].
@@ -232,11 +232,13 @@ Section Top.
       reach (cells (hp st)) n0 g' x -> x < n0 ->
       (exists a, cells h0 x = Some (CAttr a) /\ shared_attr a) \/
       (deep = false /\ exists m md k, cells h0 m = Some (CMeta md) /\ In (k, MObj x) (m_data md)) \/
+      (exists o v0, cells h0 o = Some (CValue v0) /\ v_const v0 = Some x) \/
       ((In x (passed st) \/ In x (kept st)) /\ forall k, ~ In x (owned (cells h0) k g)).
     Proof.
       intros Hr Hs Hx Hlt. destruct (graph_clone_fresh g' x Hr Hx) as [K|[_ K]]; [lia|].
-      destruct K as [K|[K|K]]; [left; exact K|right; left; exact K|right; right].
-      split; [exact K|]. intros k Hin. apply (graph_clone_owned_mapped g' k x Hr Hin). apply Hs, K.
+      destruct K as [K|[K|[K|[K|K]]]]; [left; exact K|right; left; exact K| | |right; right; left; exact K].
+      - do 3 right. split; [left; exact K|]. intros k Hin. apply (graph_clone_owned_mapped g' k x Hr Hin). apply Hs. left. exact K.
+      - do 3 right. split; [right; exact K|]. intros k Hin. apply (graph_clone_owned_mapped g' k x Hr Hin). apply Hs. right. exact K.
     Qed.
   End GraphClone.
 End Top.
